@@ -38,7 +38,18 @@ pub fn ts_opts(tsval: u32, tsecr: u32) -> Vec<u8> {
 }
 fn frame(s: &Scn, g: &Seg) -> Vec<u8> {
     let (src, dst, sp, dp) = if g.from_a { (1, 2, s.pa, s.pb) } else { (2, 1, s.pb, s.pa) };
-    pkt::build(&Spec { v6: s.v6, src, dst, sport: sp, dport: dp, flags: g.flags, seq: 1000, ack: if g.flags & ACK != 0 { 77 } else { 0 }, opts: ts_opts(g.tsval, 0), payload: if g.flags & SYN == 0 { vec![b'x'] } else { vec![] }, ..Spec::default() })
+    // what the segment carries is none of the clock's business: one byte, the beginning of a ClientHello record that continues
+    // elsewhere, the beginning of a request head (the unified analyzer runs its HTTP and TLS steps on them)
+    let payload: Vec<u8> = if g.flags & SYN != 0 {
+        vec![]
+    } else if s.unified && g.tsval % 3 == 1 {
+        vec![0x16, 0x03, 0x01, 0x02, 0x00, 0x01, 0x00, 0x01, 0xfc, 0x03, 0x03, 7, 7, 7, 7, 7, 7, 7, 7, 7, 7, 7, 7, 7, 7, 7, 7, 7, 7, 7, 7, 7, 7, 7, 7, 7, 7, 7, 7, 7, 7, 7, 7, 0]
+    } else if s.unified && g.tsval % 3 == 2 {
+        b"GET /index.html HTTP/1.1\r\nHost: exa".to_vec()
+    } else {
+        vec![b'x']
+    };
+    pkt::build(&Spec { v6: s.v6, src, dst, sport: sp, dport: dp, flags: g.flags, seq: 1000, ack: if g.flags & ACK != 0 { 77 } else { 0 }, opts: ts_opts(g.tsval, 0), payload, ..Spec::default() })
 }
 
 // ---- reference model ----
@@ -176,7 +187,7 @@ fn check_upt(u: &Upt, raws: &[f64], tsval: u32, client: bool, src: &str, dst: &s
 pub fn run_impl(s: &Scn) -> Result<Vec<TcpRes>, String> {
     guarded(|| {
         if s.unified {
-            let cfg = huginn_net::AnalysisConfig { http_enabled: false, tcp_enabled: true, tls_enabled: false, matcher_enabled: false };
+            let cfg = huginn_net::AnalysisConfig { http_enabled: true, tcp_enabled: true, tls_enabled: true, matcher_enabled: false };
             let mut a = huginn_net::HuginnNet::new(None, 16, Some(cfg)).expect("analyzer");
             s.segs
                 .iter()
@@ -273,7 +284,7 @@ fn rejected_segment_leaves_no_trace(r: &mut Report, s: &Scn, got: &[TcpRes]) {
     let with = guarded(|| {
         let mut out = vec![];
         if s.unified {
-            let cfg = huginn_net::AnalysisConfig { http_enabled: false, tcp_enabled: true, tls_enabled: false, matcher_enabled: false };
+            let cfg = huginn_net::AnalysisConfig { http_enabled: true, tcp_enabled: true, tls_enabled: true, matcher_enabled: false };
             let mut a = huginn_net::HuginnNet::new(None, 16, Some(cfg)).expect("analyzer");
             for (i, g) in s.segs.iter().enumerate() {
                 set_clock(g.at_ms);
